@@ -8,6 +8,7 @@ import Gts.Lemmas.Record
 import Gts.Lemmas.MarksOps
 import Gts.Lemmas.MarkGuardOps
 import Gts.Lemmas.MarkGuardEmbed
+import Gts.Lemmas.EmbedExact
 import Gts.Bridge.SeqInsert
 namespace Gts.C02
 open Gts Loc
@@ -149,6 +150,123 @@ theorem insert_feature_count (host guest : Seq) (i : Int) :
   constructor
   · simpa using (insert_table_perm host guest i).length_eq
   · simpa using (embed_table_perm host guest i).length_eq
+
+/-! ### Embed WITHOUT stripping the guest (audit finding S6)
+
+`expand_den_partial` compares after `stripGuest`, so it is also met by Insert's split and by an
+`Expand` that stretches a range merely ending / starting at `i`.  The statements below pin the guest
+residues `[i, i+n)`: they are denoted exactly inside the leaves that span `i` (`s < i < e`), in
+strand order, between the left part and the translated right part. -/
+
+/-- **the coordinate rule of `Ranged.Expand` for `n > 0`** (Embed): the start moves iff `i ≤ start`, the
+end moves iff `i < end`; so a range ENDING at `i` is untouched, a range STARTING at `i` is translated
+as a whole, a range spanning `i` grows by `n`; partial markers are kept.  (For Insert the same two
+rules hold outside the spanning case, `rangedShift`: "otherwise behaves identically".) -/
+theorem ranged_expand_extend (s e : Int) (p5 p3 : Bool) (i n : Int) (h : s < e) (hn : 0 < n) :
+    expand (ranged s e p5 p3) i n =
+      ranged (if i ≤ s then s + n else s) (if i < e then e + n else e) p5 p3 := by
+  simp only [expand]; exact rangedExpand_ins_eq s e p5 p3 i n h hn
+
+/-- **Embed, a leaf spanning `i`** (`s < i < e`, guest length `n ≥ 0`), as an equation on residue lists:
+the expanded range denotes the left part `[s, i)`, then the guest block `[i, i+n)`, then the right
+part translated by `n` — where the insert image `mapPos (insMap i n) (den leaf)` is exactly left part ++
+right part (the place where Insert splits).  On the complement strand the same list read backwards
+with the strand flag set. -/
+theorem expand_embed_span (s e : Int) (p5 p3 : Bool) (i n : Int) (h1 : s < i) (h2 : i < e) (hn : 0 ≤ n) :
+    den (expand (ranged s e p5 p3) i n) =
+        fwd (irange s (i - s).toNat) ++ fwd (irange i n.toNat) ++ fwd (irange (i + n) (e - i).toNat) ∧
+    mapPos (insMap i n) (den (ranged s e p5 p3)) =
+        fwd (irange s (i - s).toNat) ++ fwd (irange (i + n) (e - i).toNat) ∧
+    den (expand (compl (ranged s e p5 p3)) i n) =
+        flipDen (fwd (irange s (i - s).toNat) ++ fwd (irange i n.toNat) ++ fwd (irange (i + n) (e - i).toNat)) := by
+  have hd := den_rangedExpand_embed s e p5 p3 i n (by omega) hn
+  have hs := embedSeg_span s e i n h1 h2 hn
+  refine ⟨?_, ?_, ?_⟩
+  · simp only [expand]; rw [hd, hs.1]
+  · rw [den_ranged]; exact hs.2
+  · simp only [expand, den_compl]; rw [hd, hs.1]
+
+/-- the same for an `Ambiguous` leaf (`one-of(s..e)`) spanning `i` -/
+theorem expand_embed_span_ambiguous (s e i n : Int) (h1 : s < i) (h2 : i < e) (hn : 0 ≤ n) :
+    den (expand (ambiguous s e) i n) =
+        fwd (irange s (i - s).toNat) ++ fwd (irange i n.toNat) ++ fwd (irange (i + n) (e - i).toNat) := by
+  simp only [expand]
+  rw [den_ambiguousExpand_embed s e i n (by omega) hn, (embedSeg_span s e i n h1 h2 hn).1]
+
+/-- **Embed, a leaf that does not span `i`** (`e ≤ i` or `i ≤ s`, INCLUDING the boundary cases `e = i` and
+`s = i` the property's quantifier names): the expanded range denotes exactly the insert image — what
+`Shift` (Insert) denotes for the same leaf — and NO residue of the guest `[i, i+n)`; both strands.
+(`Ranged.Expand` with `i == end`: the end stays; with `i == start`: the whole range moves by `n`.) -/
+theorem expand_embed_outside (s e : Int) (p5 p3 : Bool) (i n : Int) (h : s < e) (hn : 0 ≤ n)
+    (ho : e ≤ i ∨ i ≤ s) :
+    den (expand (ranged s e p5 p3) i n) = mapPos (insMap i n) (den (ranged s e p5 p3)) ∧
+    den (expand (ranged s e p5 p3) i n) = den (shift (ranged s e p5 p3) i n) ∧
+    den (expand (compl (ranged s e p5 p3)) i n) = mapPos (insMap i n) (den (compl (ranged s e p5 p3))) ∧
+    (∀ p ∈ den (expand (ranged s e p5 p3) i n), p.1 < i ∨ i + n ≤ p.1) ∧
+    (∀ p ∈ den (expand (compl (ranged s e p5 p3)) i n), p.1 < i ∨ i + n ≤ p.1) := by
+  have hd : den (expand (ranged s e p5 p3) i n) = mapPos (insMap i n) (den (ranged s e p5 p3)) := by
+    simp only [expand]
+    rw [den_rangedExpand_embed s e p5 p3 i n h hn, embedSeg_outside s e i n ho, den_ranged]
+  have hout : ∀ p ∈ mapPos (insMap i n) (den (ranged s e p5 p3)), p.1 < i ∨ i + n ≤ p.1 := by
+    intro p hp
+    simp only [mapPos, List.mem_map] at hp
+    obtain ⟨q, _, rfl⟩ := hp
+    simp only [insMap]; split <;> omega
+  refine ⟨hd, ?_, ?_, ?_, ?_⟩
+  · rw [hd]; exact (den_rangedShift_ins s e p5 p3 i n h hn).symm
+  · simp only [expand, den_compl, mapPos_flipDen]
+    have := hd; simp only [expand] at this; rw [this]
+  · rw [hd]; exact hout
+  · intro p hp
+    simp only [expand, den_compl] at hp
+    have h' := hd; simp only [expand] at h'
+    rw [h'] at hp
+    simp only [flipDen, List.mem_map, List.mem_reverse] at hp
+    obtain ⟨q, hq, rfl⟩ := hp
+    exact hout q hq
+
+/-- FULL STATEMENT (false today through known finding K2 inside `Join`):
+    `∀ l i n, wf l → 0 ≤ n → den (expand l i n) ≼ embedDen l i n`. -/
+theorem expand_embed_den_full_refuted :
+    ¬ (∀ (l : Loc) (i n : Int), wf l = true → 0 ≤ n → den (expand l i n) ≼ embedDen l i n) := by
+  intro h
+  have := (h (joined [ranged 3 6 false false, point 6]) 0 0 (by decide) (by decide)).2 (6, false) (by decide)
+  revert this
+  decide
+
+/-- **Embed, host features, un-stripped**: for every well-formed location of any kind, nesting and
+strand, every index `i` and guest length `n ≥ 0`, the expanded location denotes `embedDen l i n` = the
+host image with the guest block `[i, i+n)` inserted exactly inside the leaves that span `i` (same order
+and strand; duplicate occurrences may be merged), provided rule K2 does not fire in any `Join` of the
+evaluation.  `embedDen` (`Gts/Lemmas/EmbedExact.lean`) is defined from the ORIGINAL location: per leaf
+`embedSeg` (`expand_embed_span` / `expand_embed_outside`), concatenated through join / order, read
+backwards under complement. -/
+theorem expand_embed_den_partial (l : Loc) (i n : Int) (hw : wf l = true) (hn : 0 ≤ n)
+    (hk2 : expandAbs l i n = false) :
+    den (expand l i n) ≼ embedDen l i n := expand_embed l i n hw hn hk2
+
+/-- **Embed, record level, un-stripped**: every host feature is present in the result with unchanged
+key and qualifiers and a location denoting its former residues at their new positions plus the guest
+block inside exactly the parts that spanned `i`. -/
+theorem embed_host_feature_exact_partial (host guest : Seq) (i : Int) (f : Feature) (hf : f ∈ host.feats)
+    (hw : wf f.loc = true) (hk2 : expandAbs f.loc i guest.len = false) :
+    ∃ f' ∈ (host.embed i guest).feats, f'.key = f.key ∧ f'.props = f.props ∧
+      den f'.loc ≼ embedDen f.loc i guest.len :=
+  ⟨{ f with loc := f.loc.expand i guest.len },
+   mem_of_perm_map_append_left (embed_table_perm host guest i) hf, rfl, rfl,
+   expand_embed_den_partial f.loc i guest.len hw guest.len_nonneg hk2⟩
+
+/-- non-vacuity, and the law DISTINGUISHES: a complement-strand join with a part spanning `i = 4`, a part
+ending at `4` and a part starting at `4` meets the hypotheses; its Embed image has the guest block in the
+spanning part only; Insert's image (`shift`) of the same location does NOT meet the conclusion, and
+neither does a range ending at `i` stretched over the guest. -/
+example : wf (compl (joined [ranged 0 4 true false, ranged 6 9 false false, ranged 2 6 false false, ranged 4 5 false true])) = true ∧
+    expandAbs (compl (joined [ranged 0 4 true false, ranged 6 9 false false, ranged 2 6 false false, ranged 4 5 false true])) 4 3 = false ∧
+    embedDen (joined [ranged 0 4 true false, ranged 6 9 false false, ranged 2 6 false false, ranged 4 5 false true]) 4 3 =
+      fwd [0, 1, 2, 3] ++ fwd [9, 10, 11] ++ fwd [2, 3, 4, 5, 6, 7, 8] ++ fwd [7] ∧
+    den (expand (ranged 2 6 false false) 4 3) = embedDen (ranged 2 6 false false) 4 3 ∧
+    den (shift (ranged 2 6 false false) 4 3) ≠ embedDen (ranged 2 6 false false) 4 3 ∧
+    den (ranged 0 7 true false) ≠ embedDen (ranged 0 4 true false) 4 3 := by decide
 
 /-! ### partial markers stay on the same outer ends
 
